@@ -64,6 +64,7 @@ type GenOpts struct {
 	ForceDefault   bool // never strict
 	Gadgets        bool // bias towards shapes known to matter
 	WideNode       int  // if > 0: add one node with this many subject-set children
+	WideMember     bool // with WideNode: in half of the cases the query subject is a member of ONE of those children (a width cut can hide it)
 }
 
 type genState struct {
@@ -142,6 +143,9 @@ func GenCase(t *Tape, o GenOpts) *Case {
 	}
 	if o.WideNode > 0 {
 		c.Tuples = append(c.Tuples, g.wide(c.Query, o.WideNode)...)
+		if o.WideMember && t.Bool(1, 2) {
+			c.Tuples = append(c.Tuples, Tuple{NS: c.Query.NS, Obj: fmt.Sprintf("w%d", t.Choose(o.WideNode)), Rel: "r0", Sub: c.Query.Sub})
+		}
 	}
 	// the store stays well-formed: a relation that some traverse walks over only
 	// holds subject sets of namespaces that declare the computed relation
